@@ -76,10 +76,10 @@ struct Resolver {
             int kit = s.prog + ((mode == M_XG && s.msb == 126) ? 128 : 0);
             int r = lookup(L, 1, 0, kit, key);
             if(r >= 0) { out.insert(r); return out; }
-            // 'bank with LSB cleared' for a kit number: the 128-aligned kit (kit 128 for SFX kits) - or directly kit 0; both readings accepted
+            // 'bank with LSB cleared' for a kit number: the kit with the low seven bits cleared - drum kit 0 for the drum kits, and for an
+            // SFX kit (which IS percussion bank 128 + program, the statement's 'offset by 128') SFX kit 0 = bank 128; then bank 0
             int a = lookup(L, 1, 0, kit & ~0x7F, key); if(a < 0) a = lookup(L, 1, 0, 0, key);
-            int b = lookup(L, 1, 0, 0, key);
-            out.insert(a); out.insert(b);
+            out.insert(a);
         }
         return out;
     }
